@@ -16,12 +16,12 @@ import vfbuild, c05, sqfsdec, treegen
 PROP = "C10"
 
 
-def make_images(bdir, seed, cd, ndamaged):
+def make_images(bdir, seed, cd, ndamaged, bigmeta=False):
     r = rng(seed, "c10img")
-    store = r.random() < 0.5
+    store = r.random() < 0.5 or bigmeta
     # several metadata blocks: many inodes / directory entries
     ents = treegen.gen_tree(r, bs=4096, nfiles=r.choice([8, 14]), ndirs=r.choice([3, 6]), specials=True, xattrs=True, hardlinks=True,
-                            big=r.random() < 0.5, bigdir=r.choice([300, 600]), bigdir_dense=r.random() < 0.3)
+                            big=r.random() < 0.5, bigdir=r.choice([300, 600]) if not bigmeta else 2600, bigdir_dense=r.random() < 0.3 and not bigmeta)
     ents = [e for e in ents if treegen.packfile_representable(e)]
     treegen.emit_packfile(ents, cd)
     treegen.emit_xattr_file(ents, cd)
@@ -29,6 +29,9 @@ def make_images(bdir, seed, cd, ndamaged):
     argv = ["-c", comp, "-b", "4096", "-q", "-j", "1", "-F", "pack.txt", "-D", ".", "-A", "xattr.txt"]
     if r.random() < 0.6:
         argv.append("-e")
+    notail = r.random() < 0.4
+    if notail:
+        argv.append("-T")           # short last data blocks instead of fragments
     rr = run_sim(os.path.join(bdir, "plain", "sim-gensquashfs"), argv + ["valid.sqfs"], cwd=cd, plan="seed 1\nsched rr\n" + ("store 1\n" if store else ""))
     if rr.rc != 0:
         raise RuntimeError("image build failed: %s" % rr.stderr[-200:])
@@ -39,11 +42,22 @@ def make_images(bdir, seed, cd, ndamaged):
     for i in range(ndamaged):
         mr = rng(seed, "dmg", i)
         bad, desc = c05.mutate(mr, data, fields) if fields else (data, [])
+        sizes = [f for f in fields if f[0].endswith(".file_size") and int.from_bytes(data[f[1]:f[1] + f[2]], "little") % 4096]
+        if sizes and i % 3 == 2:
+            # a size field that claims a little more than the last (short) block or the tail end holds: same block count, so the inode
+            # still parses, but reads now reach bytes behind the unpacked data
+            sizes.sort(key=lambda f: -int.from_bytes(data[f[1]:f[1] + f[2]], "little"))
+            fname, off, ln = mr.choice(sizes[:6])           # one of the larger files: the readers' data queries prefer those
+            old = int.from_bytes(data[off:off + ln], "little")
+            new = old + mr.choice([1, 100, (-old) % 4096])
+            b = bytearray(data)
+            b[off:off + ln] = new.to_bytes(ln, "little")
+            bad, desc = bytes(b), ["%s @%d: %d -> %d" % (fname, off, old, new)]
         name = "damaged%d.sqfs" % i
         with open(os.path.join(cd, name), "wb") as f:
             f.write(bad)
         images.append((name, False, desc))
-    return images, {"store": store, "comp": comp, "entries": len(ents), "bytes": len(data)}
+    return images, {"store": store, "comp": comp, "entries": len(ents), "bytes": len(data), "notail": notail}
 
 
 def parse_out(out):
